@@ -28,7 +28,7 @@ func stackTrace() string { return string(debug.Stack()) }
 // drawValTokens draws a validator power vector.
 func drawValTokens(e *Env, minN, maxN int) []int64 {
 	n := e.Ch.Range("cfg.nvals", minN, maxN)
-	shape := e.Ch.Intn("cfg.valshape", 4)
+	shape := e.Ch.Intn("cfg.valshape", 5)
 	out := make([]int64, n)
 	for i := range out {
 		switch shape {
@@ -41,6 +41,15 @@ func drawValTokens(e *Env, minN, maxN int) []int64 {
 			}
 		case 2: // spread
 			out[i] = int64(1+e.Ch.Intn("cfg.valtok", 50)) * 7_000_000
+		case 4: // the last validator holds half of the total, one token less, or one more: the half-power rules at their boundary
+			out[i] = 1_000_000 + int64(e.Ch.Intn("cfg.valtok4", 5))*500_000
+			if i == n-1 && n > 1 {
+				var sum int64
+				for _, x := range out[:i] {
+					sum += x
+				}
+				out[i] = sum + int64(e.Ch.Intn("cfg.valtok4.last", 3)) - 1
+			}
 		case 3: // tiny + large
 			out[i] = []int64{1_000_000, 2_000_000, 900_000_000}[e.Ch.Intn("cfg.valtok3", 3)]
 		}
@@ -260,7 +269,7 @@ func setupTSS(e *Env, o core.RunOpts) error {
 	e.Shared["tss.shadow"] = shadow
 	e.Shared["tss.pool"] = pool
 	cfg.GenesisMods = append(cfg.GenesisMods, govGenesis(4*time.Second), quietEconomy(),
-		tssGenesis(e, tssGenesisCfg{TSSParams: tp, BandtssParams: bp, GroupMembers: pool.Members, Threshold: thr, InitialDEs: e.Ch.Intn("cfg.tss.initde", int(tp.MaxDESize)+1)}))
+		tssGenesis(e, tssGenesisCfg{TSSParams: tp, BandtssParams: bp, GroupMembers: pool.Members, Threshold: thr, InitialDEs: e.Ch.Intn("cfg.tss.initde", int(tp.MaxDESize)+1), GrindKey: e.Ch.Bool("cfg.tss.grindkey", 60)}))
 	w, err := world.New(e.Ch, e.Log, e.St, cfg, o.Scratch)
 	if err != nil {
 		return err
@@ -288,6 +297,10 @@ func setupTransition(e *Env, o core.RunOpts) error {
 	tokens := drawValTokens(e, 1, 3)
 	tp := drawTSSParams(e)
 	tp.CreationPeriod = uint64(e.Ch.Range("cfg.tss.creation2", 8, 40))
+	if e.Ch.Bool("cfg.tss.longperiod", 300) {
+		// long signing periods: a hand-over signing can outlive its transition and still be open when the next one waits
+		tp.SigningPeriod = uint64(e.Ch.Range("cfg.tss.period2", 12, 40))
+	}
 	bp := drawBandtssParams(e)
 	e.Shared["tss.genesis.params"] = tp
 	e.Shared["bandtss.genesis.params"] = bp
@@ -335,7 +348,7 @@ func setupTransition(e *Env, o core.RunOpts) error {
 	e.Actors = append(e.Actors, gov,
 		&TransitionDriver{Pool: pool, Rate: 250 + e.Ch.Intn("cfg.trans.rate", 500), ForceP: e.Ch.Intn("cfg.trans.force", 300), MaxSize: 1 + e.Ch.Intn("cfg.trans.maxsize", 5), OverlapP: 150},
 		dkg,
-		&TSSActor{Pool: pool, ByzP: e.Ch.Intn("cfg.tss.byz", 150), ReactP: 300, OverDEP: 0},
+		&TSSActor{Pool: pool, ByzP: e.Ch.Intn("cfg.tss.byz", 150), ReactP: 300, OverDEP: 0, HoldStaleP: []int{0, 300, 700}[e.Ch.Intn("cfg.tss.holdstale", 3)]},
 		&SigRequester{Rate: 100 + e.Ch.Intn("cfg.sigreq.rate", 400), MaxOpen: 1 + e.Ch.Intn("cfg.sigreq.maxopen", 4), Senders: w.Users[poolSize:], LimitW: []int{85, 5, 5, 5}, RollbackP: 30})
 	e.Monitors = append(e.Monitors, &C04{}, &C18{}, &C05{}, &C03{}, &C10{}, &C09{WithTSS: true}, &C13{WithTSS: true}, &C11{})
 	e.MaxSteps = e.Ch.Range("cfg.steps", 60, 150)
@@ -399,7 +412,7 @@ func setupFeeds(e *Env, o core.RunOpts) error {
 	if o.Prop == "C07" {
 		va.WrapP = e.Ch.Intn("cfg.vote.wrap", 120)
 	}
-	fa := &FeederActor{Lazy: lazy, ByzP: e.Ch.Intn("cfg.feeder.byz", 80), SkewP: e.Ch.Intn("cfg.feeder.skew", 80)}
+	fa := &FeederActor{Lazy: lazy, ByzP: e.Ch.Intn("cfg.feeder.byz", 80), SkewP: e.Ch.Intn("cfg.feeder.skew", 80), Bystander: w.Users[7]}
 	e.Actors = append(e.Actors, oa, sa, va, fa)
 	e.Monitors = append(e.Monitors, &C06{}, &C07{}, &C15{}, &C16{}, NewC01(), &C09{})
 	e.MaxSteps = e.Ch.Range("cfg.steps", 40, 110)
@@ -437,9 +450,16 @@ func setupTunnel(e *Env, o core.RunOpts) error {
 	noGroup := e.Ch.Bool("cfg.tunnel.nogroup", 80)
 	pool := NewTSSPool(e, accs[:size])
 	drawMemberBehaviour(e, pool, int(tp.MaxDESize), true)
+	if e.Ch.Bool("cfg.tunnel.diligent", 600) {
+		// a signing group that keeps its nonces stocked and signs promptly: most sends succeed, so that the due / content /
+		// sequence rules are exercised on long packet sequences (the other runs exercise the failure paths)
+		for _, m := range pool.Members {
+			m.DETarget, m.DELazyP, m.Silent, m.SignW, m.ResetP = int(tp.MaxDESize), 1000, false, []int{100, 0, 0, 0, 0, 0}, 0
+		}
+	}
 	e.Shared["tss.shadow"] = NewTSSShadow(pool)
 	e.Shared["tss.pool"] = pool
-	gcfg := tssGenesisCfg{TSSParams: tp, BandtssParams: bp, GroupMembers: pool.Members, Threshold: thr, InitialDEs: e.Ch.Intn("cfg.tss.initde", int(tp.MaxDESize)+1)}
+	gcfg := tssGenesisCfg{TSSParams: tp, BandtssParams: bp, GroupMembers: pool.Members, Threshold: thr, InitialDEs: e.Ch.Intn("cfg.tss.initde", int(tp.MaxDESize)+1), GrindKey: e.Ch.Bool("cfg.tss.grindkey", 60)}
 	if noGroup {
 		gcfg.GroupMembers = nil
 		e.Shared["bandtss.genesis.current"] = uint64(0)
@@ -469,6 +489,10 @@ func setupTunnel(e *Env, o core.RunOpts) error {
 	e.Shared["feeds.shadow"] = NewFeedsShadow()
 	e.Shared["tunnel.shadow"] = NewTunnelShadow(e, tup, tunnelUsers)
 	signals := []string{"CS:BTC-USD", "CS:ETH-USD", "CS:BAND-USD", "X", "CS:A-VERY-LONG-SIGNAL-ID-0123456789", "CS:SOL-USD"}
+	if !e.Ch.Bool("cfg.signals.long", 250) {
+		// an id longer than 32 bytes cannot be ABI-encoded: every TSS packet carrying it fails; kept in a quarter of the runs only
+		signals[4] = "CS:ATOM-USD"
+	}
 	lazy := map[string]int{}
 	for _, v := range w.Vals {
 		lazy[v.Val.String()] = []int{0, 0, 100}[e.Ch.Intn("cfg.feeder.lazy", 3)]
@@ -532,7 +556,7 @@ func setupEconomy(e *Env, o core.RunOpts) error {
 		gs[distrtypes.ModuleName] = cdc.MustMarshalJSON(&dg)
 	}
 	cfg.GenesisMods = append(cfg.GenesisMods, govGenesis(4*time.Second), taxMod, oracleGenesis(e, op, dss),
-		tssGenesis(e, tssGenesisCfg{TSSParams: tp, BandtssParams: bp, GroupMembers: pool.Members, Threshold: thr, InitialDEs: e.Ch.Intn("cfg.tss.initde", int(tp.MaxDESize)+1)}))
+		tssGenesis(e, tssGenesisCfg{TSSParams: tp, BandtssParams: bp, GroupMembers: pool.Members, Threshold: thr, InitialDEs: e.Ch.Intn("cfg.tss.initde", int(tp.MaxDESize)+1), GrindKey: e.Ch.Bool("cfg.tss.grindkey", 60)}))
 	w, err := world.New(e.Ch, e.Log, e.St, cfg, o.Scratch)
 	if err != nil {
 		return err
@@ -665,6 +689,10 @@ func setupFuzz(e *Env, o core.RunOpts) error {
 	dkg := &DKGActor{Pool: pool, DeviateP: 100, SilentP: 20, NonMemberP: 30}
 	e.Shared["dkg.actor"] = dkg
 	signals := []string{"CS:BTC-USD", "CS:ETH-USD", "CS:BAND-USD", "X", "CS:A-VERY-LONG-SIGNAL-ID-0123456789", "CS:SOL-USD"}
+	if !e.Ch.Bool("cfg.signals.long", 250) {
+		// an id longer than 32 bytes cannot be ABI-encoded: every TSS packet carrying it fails; kept in a quarter of the runs only
+		signals[4] = "CS:ATOM-USD"
+	}
 	lazy := map[string]int{}
 	for _, v := range w.Vals {
 		lazy[v.Val.String()] = []int{0, 100, 400}[e.Ch.Intn("cfg.feeder.lazy", 3)]
